@@ -266,7 +266,10 @@ def get_composite_from_store(store: Store) -> Composite:
         topology=store.get_topology(),
         steps=store.get_steps(),
         flow=store.get_flow(),
-        state=store.get_value(),
+        # (the values of the variables: the nodes that hold the
+        # processes themselves are not part of the state)
+        state=store.get_value(
+            condition=lambda node: not isinstance(node.value, Process)),
     )
 
 
